@@ -82,7 +82,11 @@ func runC05(c *Ctx) {
 	}
 	att := attempt.(ssa.Instruction)
 	// generic check for a verdict If: verdictSucc cannot reach attempt; every cycle passes through the If
+	knownVerdict := map[*ssa.If]bool{} // If → polarity of its verdict side
 	checkVerdict := func(name string, iff *ssa.If, verdictTrue bool) {
+		if iff != nil {
+			knownVerdict[iff] = verdictTrue
+		}
 		if iff == nil {
 			c.Bad("retry loop tests "+name, p.Pos(send.Pos()), "the test is missing: the loop would retry after this verdict")
 			return
@@ -236,6 +240,7 @@ func runC05(c *Ctx) {
 			}
 			bypassOK = okGuard
 		}
+		knownVerdict[b] = true
 		c.Check(bypassOK, "every retry cycle passes the `"+name+"` test (unless no limit is set)", p.Pos(b.Pos()), "on every cycle modulo limit-not-set", "a cycle bypasses the limit test")
 		if len(call.Call.Args) == 2 {
 			if nextRetry == nil {
@@ -255,6 +260,22 @@ func runC05(c *Ctx) {
 		}
 	})
 	var waitDur ssa.Value
+	if sel != nil {
+		// "retried if and only if": between an attempt and the wait, Send gives up only on the verdicts the
+		// property names (success, permanent error, back-off exhausted, budget, deadline) – no other early return
+		for _, r := range returnsOf(send) {
+			if !canReach(att, r, map[ssa.Instruction]bool{sel: true}) {
+				continue
+			}
+			okV := false
+			for _, g := range guardsOf(r.Block()) {
+				if pol, ok := knownVerdict[g.If]; ok && pol == g.Branch {
+					okV = true
+				}
+			}
+			c.Check(okV, fmt.Sprintf("return at %s (before the wait) is one of the named verdicts", p.Pos(r.Pos())), p.Pos(r.Pos()), "guarded by success / permanent / back-off stop / budget / deadline", "after a failed attempt Send gives up under a condition that is none of the verdicts of the property (success, permanent error, back-off exhausted, elapsed-time budget, request deadline): e.g. an attempt that ended with a context error – the per-attempt timeout of a hung backend – is not retried although the request itself is still alive")
+		}
+	}
 	if sel == nil {
 		c.Bad("retry wait select", p.Pos(send.Pos()), "no select")
 	} else {
@@ -561,6 +582,16 @@ func runC05(c *Ctx) {
 	runC05More(c)
 	runC05NoErrAssert(c)
 	runC05Round3(c)
+	if a := findPQ(p); a != nil {
+		sub := NewCtx(p, "C01", c.Tier, c.Config)
+		runC01Round3(sub, a)
+		c.Rule("R13", "GATE", "a request interrupted by shutdown stays listed as dispatched in memory (same rule as C01.R13), so that the persistent queue really keeps it", 1)
+		for _, o := range sub.Obs {
+			if o.Rule == "C01.R13" && !strings.HasPrefix(o.Construct, "floor:") {
+				c.add(o.Verdict, o.Construct, o.Pos, o.Detail)
+			}
+		}
+	}
 	shareRule(c, "C03", runC03, []string{"C03.R6"}, "R12", "PAIR", "a shutdown-classified error of one part of a split request survives the completion aggregation (same rule as C03.R6), so the persistent queue keeps the request", 3)
 }
 
